@@ -62,6 +62,15 @@ def gen_box(rng, kind):
     elif kind == "constant":
         c = float(rng.randint(-3, 3))
         left, right = [c] * n, [c + rng.choice([0.0, 2.0])] * n
+    elif kind == "one-flat":          # a flat run in ONE bound that is not matched in the other
+        vary = sorted(rng.uniform(0, 10) for _ in range(n))
+        if rng.random() < 0.5:
+            left, right = [float(rng.randint(-3, 0))] * n, vary
+        else:
+            left, right = [v - 10 for v in vary], [float(rng.randint(1, 3))] * n
+        k = rng.randrange(20, 180)        # ... and a version where only a stretch is flat
+        if rng.random() < 0.5:
+            left = sorted(left[:k] + [left[k]] * (n - k)) if left[0] != left[-1] else left
     elif kind == "scaled":            # the step / integer shapes at tiny and huge magnitudes (powers of two stay exact)
         l0, r0 = gen_box(rng, rng.choice(["steps", "integer", "mixed"]))
         sc = rng.choice([2.0 ** -70, 2.0 ** -30, 2.0 ** 36, 1e-19, 1e-170, 1e150])
@@ -96,7 +105,7 @@ def gen_box(rng, kind):
     return [float(x) for x in left], [float(x) for x in right]
 
 
-KINDS = ["continuous", "shifted", "steps", "integer", "degenerate", "constant", "mixed", "thin", "steps", "integer", "tiny", "extreme", "scaled", "scaled"]
+KINDS = ["continuous", "shifted", "steps", "integer", "degenerate", "constant", "mixed", "thin", "steps", "integer", "tiny", "extreme", "scaled", "one-flat"]
 
 
 def ctor_boxes(rng):
@@ -154,7 +163,13 @@ def build_box(Staircase, rng, left, right):
         from pyuncertainnumber.pba.pbox_abc import Leaf
         return mode, Leaf(left=np.array(left), right=np.array(right), steps=rng.choice([10, 50, 100]))
     if mode == "float-array":
-        return mode, Staircase(left=np.array(left), right=np.array(right))
+        # float64 arrays of exactly the native length; afterwards the caller goes on working on ITS arrays in place
+        La, Ra = np.array(left, dtype=float), np.array(right, dtype=float)
+        P = Staircase(left=La, right=Ra)
+        shared = np.shares_memory(np.asarray(P.left), La) or np.shares_memory(np.asarray(P.right), Ra)
+        La += 5.0
+        Ra[:] = Ra[::-1].copy()
+        return ("float-array(shares-caller-memory)" if shared else "float-array+caller-mutates"), P
     if mode == "list":
         return mode, Staircase(left=list(left), right=list(right))
     if mode == "tuple-ish":
@@ -217,6 +232,9 @@ def _run_impl(P, op, arg, keep):
     try:
         if op == "cut":
             return ivl_out(K(P.alpha_cut(arg)))
+        if op in ("cuts", "cdfs") and arg and arg[-1] == "f32":
+            a32 = np.array(arg[:-1], dtype=np.float32)
+            return ivl_out(K(P.alpha_cut(a32) if op == "cuts" else P.cdf(a32)))
         if op == "cuts":
             return ivl_out(K(P.alpha_cut(np.array(arg))))
         if op == "cdf":
@@ -278,6 +296,8 @@ def model_batch_par(prop, reqs, workers=4):
 
 def wire(op, left, right, arg, Params):
     L, R = _cached_ql(left), _cached_ql(right)
+    if isinstance(arg, list) and arg and arg[-1] == "f32":
+        arg = arg[:-1]
     if op in ("cut", "cdf"):
         return f"{op} {L} {R} {q(arg)}"
     if op in ("cuts", "cdfs"):
@@ -366,6 +386,9 @@ def gen_queries(rng, Gf, left, right, tier_scale):
         Q.append(("outer", m))
     for m in {rng.choice([2, 3, 4, 5, 10, 198, 199, 200]), rng.randint(2, 200)}:
         Q.append(("cond", m))
+    Q.append(("cuts", [float(np.float32(rng.random())) for _ in range(5)] + ["f32"]))      # marker: passed as a float32 array
+    f32 = lambda v: float(np.float32(v)) if abs(v) < 3e38 else 0.0
+    Q.append(("cdfs", [f32(rng.choice(xs)) for _ in range(5)] + ["f32"]))
     Q.append(("cdf", rng.choice([0, 0.0, -0.0])))                    # falsy but valid arguments
     Q.append(("cut", rng.choice([-0.0, 0.0, 0])))
     # prediction intervals: pairs of coverage levels, both styles
@@ -466,6 +489,8 @@ def run(ctx: core.Check):
         if [float(x) for x in P_.left] != left_ or [float(x) for x in P_.right] != right_:
             ctx.fail(feats("queries", kind_, "pbox-mutated"), {"box": kind_, "left": left_, "right": right_},
                      "the p-box bounds changed as a side effect of querying it")
+        if not np.array_equal(Params.p_values, np.array(Gf)) or Params.steps != N:
+            ctx.fail(feats("queries", kind_, "global-grid-mutated"), {"box": kind_}, "Params.p_values / Params.steps changed as a side effect of querying a p-box")
         # the first query of this box once more, after everything else
         op_, arg_, rec = first_of_box[bi_]
         again = run_impl(P_, op_, arg_)
@@ -506,6 +531,9 @@ def run(ctx: core.Check):
         first_of_box.setdefault(bi, (op, arg, impl))
         model = parse_model(rep)
         arg = _plain(arg)
+        if isinstance(arg, list) and arg and arg[-1] == "f32":
+            arg = arg[:-1]
+            ctx.bump("float32-array-argument")
         cj = {"box": kind, "op": op, "arg": arg, "left": left, "right": right}
         sj = {"box": kind, "op": op, "arg": arg, "left_head": left[:5], "right_head": right[:5]}
         # ---------------- tie
@@ -612,6 +640,7 @@ def run(ctx: core.Check):
     if last_bi is not None:
         box_unchanged(last_bi)
     reverify("end of run")
+    run_state_stream18(ctx, boxes, objs, Gf, Staircase, Params)
     # ---------------- sample(n): Latin-hypercube alpha-cuts; n beyond the chunk sizes. Every returned interval must be a
     # step of the box, and step k must be hit by about n * (width of the level region of k) of the n strata.
     sl = [float(3 * i) for i in range(N)]
@@ -696,6 +725,108 @@ def run(ctx: core.Check):
         ctx.bump("pi-fallback-counterexample-reproduced-on-real-code")
     else:
         ctx.tie_bad("pi-counterexample", {"box": "left[i]=i, right[i]=i+100", "alphas": [0.125, 0.984375]}, [_short(r1), _short(r2)], [_short(m1), _short(m2)])
+
+
+def run_state_stream18(ctx, boxes, objs, Gf, Staircase, Params):
+    """(P i) queries under escalated floating-point errors / warnings give the same answer or raise;
+    (P ii) Params.steps / Params.p_values set to another grid, used, restored: the queries answer on the configured grid"""
+    import warnings as _w
+    rng = ctx.rng
+    todo = [bi for bi in sorted(objs) if objs[bi] is not None][: ctx.scale(12, 100)]
+    for bi in todo:
+        P, (kind, left, right) = objs[bi], boxes[bi]
+        qs = [("cut", rng.random()), ("cuts", [rng.random() for _ in range(4)]), ("cdf", float(rng.choice(left + right))),
+              ("pi", (rng.choice([0.5, 0.9, 0.95]), rng.choice(["narrowest", "widest"]))), ("outer", rng.choice([3, 7])),
+              ("cond", rng.choice([3, 7])), ("disc", rng.choice([None, 9]))]
+        for op, arg in qs:
+            base = run_impl(P, op, arg)
+            for mode in ("errstate-raise", "warnings-error"):
+                ctx.count(("fpstate", bi, op, mode), kind != "constant", "fp-state")
+                try:
+                    if mode == "errstate-raise":
+                        with np.errstate(all="raise"):
+                            r = run_impl(P, op, arg)
+                    else:
+                        with _w.catch_warnings():
+                            _w.simplefilter("error")
+                            r = run_impl(P, op, arg)
+                except BaseException:  # noqa
+                    r = ("err", "Other")
+                if r[0] == "err":
+                    ctx.bump(mode + ":raised")       # an escalated warning / FloatingPointError propagating is acceptable
+                elif base[0] == "ok" and r[:3] != base[:3]:
+                    ctx.fail(feats(op, kind, "different-value-under-" + mode), {"box": kind, "op": op, "arg": _plain(arg), "left": left, "right": right},
+                             f"{op}({_plain(arg)}) under {mode} gives another answer than under the default settings")
+            again = run_impl(P, op, arg)
+            if again[:3] != base[:3]:
+                ctx.fail(feats(op, kind, "state-leaked"), {"box": kind, "op": op, "arg": _plain(arg)}, f"{op} answers differently after the escalated-warning calls")
+    # ---- another public grid
+    old = (Params.steps, Params.p_values)
+    try:
+        for steps in [100, 300, 40, 201][: ctx.scale(3, 4)]:
+            Params.steps = steps
+            Params.p_values = np.linspace(Params.p_lboundary, Params.p_hboundary, steps)
+            g2 = [float(x) for x in Params.p_values]
+            GX2 = GridX(g2)
+            for _ in range(ctx.scale(4, 30)):
+                kind = rng.choice(["continuous", "steps", "integer", "mixed"])
+                l200, r200 = gen_box(rng, kind)
+                idx = [round(i * (N - 1) / (steps - 1)) for i in range(steps)] if steps <= N else None
+                left = [l200[i] for i in idx] if idx else sorted(l200 + l200[: steps - N])
+                right = [r200[i] for i in idx] if idx else sorted(r200 + r200[: steps - N])
+                right = [max(a, b) for a, b in zip(left, right)]
+                cj = {"stream": "grid-changed", "steps": steps, "box": kind, "left": left, "right": right}
+                ctx.count(("grid", steps, tuple(left[:5])), True, "grid-changed")
+
+                def bad(what, **kw):
+                    ctx.fail(feats(kw.pop("op"), kind, what, steps=steps, stream="grid-changed"), dict(cj, **kw),
+                             f"with Params.steps = {steps}: {what} ({kw})")
+                try:
+                    P = Staircase(left=np.array(left), right=np.array(right))
+                    if [float(x) for x in P.left] != left or [float(x) for x in P.right] != right:
+                        bad("constructor does not keep bounds of the configured length", op="Staircase")
+                        continue
+                    for a in [0.0, 1.0, rng.random(), rng.choice(g2), (g2[3] + g2[4]) / 2 + 1e-9]:
+                        c = ivl_out(P.alpha_cut(a))
+                        if not any(c[1][0] == left[k] and c[2][0] == right[k] for k in GX2.nearest_set(a, slack_for(g2, a))):
+                            bad("alpha_cut is not the cut at the nearest configured level", op="cut", level=a)
+                    lv = [rng.random() for _ in range(steps)]
+                    c = ivl_out(P.alpha_cut(np.array(lv)))
+                    if len(c[1]) != steps or any(not any(l == left[k] and h == right[k] for k in GX2.nearest_set(a, slack_for(g2, a))) for a, l, h in zip(lv, c[1], c[2])):
+                        bad("alpha_cut(array of exactly `steps` levels) wrong", op="cuts")
+                    for x in [left[0] - 1, right[-1] + 1, rng.choice(left), rng.choice(right), (left[0] + right[-1]) / 2]:
+                        c = ivl_out(P.cdf(float(x)))
+                        if c[1][0] not in g2 or c[2][0] not in g2:
+                            bad("cdf returns a probability that is not a configured level", op="cdf", x=x)
+                            continue
+                        kl, kh = g2.index(c[1][0]), g2.index(c[2][0])
+                        tl = min(max(count_le(right, x) - 1, 0), steps - 1)
+                        th = min(max(count_le(left, x) - 1, 0), steps - 1)
+                        if abs(kl - tl) > 1 or abs(kh - th) > 1:
+                            bad("cdf more than one configured step away from the inverse of the alpha-cuts", op="cdf", x=x, got=[kl, kh], want=[tl, th])
+                    d = ivl_out(P.discretise())
+                    if d[1] != left or d[2] != right:
+                        bad("discretise() does not return the steps", op="disc")
+                    m = rng.choice([2, 3, 5, steps])
+                    lvm = [float(x) for x in np.linspace(Params.p_lboundary, Params.p_hboundary, m)]
+                    o = ivl_out(P.outer_discretisation(m))
+                    if len(o[1]) != m - 1 or any(o[1][j] != left[GX2.nearest(lvm[j])] or o[2][j] != right[GX2.nearest(lvm[j + 1])] for j in range(min(m - 1, len(o[1])))):
+                        bad("outer_discretisation wrong", op="outer", m=m)
+                    cnd = P.condensation(rng.choice([2, 3, 5]))
+                    cl, cr = [float(x) for x in cnd.left], [float(x) for x in cnd.right]
+                    if len(cl) != steps or any(a > b for a, b in zip(cl, left)) or any(a > b for a, b in zip(right, cr)):
+                        bad("condensation does not contain the p-box / has another number of steps", op="cond")
+                    al = rng.choice([0.5, 0.9, 0.99])
+                    w_ = ivl_out(P.get_PI(al, style="widest"))
+                    lc = (1 - al) / 2
+                    if (w_[1][0], w_[2][0]) != (left[GX2.nearest(lc)], right[GX2.nearest(1 - lc)]):
+                        bad("widest prediction interval wrong", op="pi", alpha=al)
+                except BaseException as e:  # noqa
+                    bad("raises " + type(e).__name__, op="queries", msg=str(e)[:80])
+    finally:
+        Params.steps, Params.p_values = old
+    if Params.steps != N or not np.array_equal(Params.p_values, np.array(Gf)):
+        ctx.fail(feats("Params", "-", "grid-not-restored"), {}, "Params not restored")
 
 
 def narrow_direct(GX, left, right, alpha):
